@@ -74,6 +74,8 @@ def run(ctx):
                  sample={'arch': o['arch'], 'style': o['style'], 'cost': {k: {q: v.get(q) for q in ('value', 'hi', 'lo', 'open', 'orig')} for k, v in o['specs'].items()}} if o['seed'] % 13 == 0 else None)
         for prod in o['productions']:
             ctx.dist['prod:' + prod] += 1
+        if o.get('topo'):
+            ctx.dist['topology:' + o['topo']] += 1
         for key, info in o['fails']:
             fails.append(('PIT:' + key, {'kind': 'pit', 'seed': o['seed'], 'style': o['style'], 'arch': o['arch']}, {'detail': info, 'trace': o.get('trace')}))
     ctx.extra['pit_networks'] = len(nets) - skipped
